@@ -1029,7 +1029,9 @@ func (t *FnTrans) callWrites(c *ssa.CallCommon, l *loopInfo) {
 		return
 	}
 	if ct == nil {
-		ct = t.eng.specs.Funcs[key]
+		if ct = t.eng.specs.Funcs[key+"@"+t.fn.Pkg.Pkg.Path()]; ct == nil {
+			ct = t.eng.specs.Funcs[key]
+		}
 	}
 	if ct == nil {
 		t.setAll(l, 925)
